@@ -1,4 +1,4 @@
-CONSTANTS MaxCalls = 2  MaxCont = 1  MaxTrail = 1  DoneInit = "false"  HoldItems = FALSE
+CONSTANTS MaxCalls = 2  MaxCont = 1  MaxTrail = 1  WithGenErr = TRUE  DoneInit = "false"  HoldItems = FALSE
 SPECIFICATION Spec
 INVARIANT ChainInv
 CHECK_DEADLOCK FALSE
